@@ -3,6 +3,8 @@
 // meaning `HV` (a static literal, a formatted literal + integer arguments, an HTTP date, or opaque request bytes).
 pub mod stub {
     use vstd::prelude::*;
+    use vstd::std_specs::cmp::*;
+    use std::cmp::Ordering;
     /// std::time::SystemTime as (seconds since the epoch, sub-second nanoseconds).
     #[derive(Clone, Copy)]
     pub struct SystemTime { pub secs: u64, pub nanos: u32 }
@@ -13,13 +15,37 @@ pub mod stub {
     }
     pub open spec fn st_le(a: SystemTime, b: SystemTime) -> bool { a.secs < b.secs || (a.secs == b.secs && a.nanos <= b.nanos) }
     pub open spec fn st_min_s(a: SystemTime, b: SystemTime) -> SystemTime { if st_le(a, b) { a } else { b } }
-    /// rule R12: `a > b` / `a <= b` on SystemTime and `std::cmp::min(m, d)` become these named functions.
-    pub fn st_gt(a: &SystemTime, b: &SystemTime) -> (r: bool) ensures r == !st_le(*a, *b)
-    { !(a.secs < b.secs || (a.secs == b.secs && a.nanos <= b.nanos)) }
-    pub fn st_le_x(a: &SystemTime, b: &SystemTime) -> (r: bool) ensures r == st_le(*a, *b)
-    { a.secs < b.secs || (a.secs == b.secs && a.nanos <= b.nanos) }
-    pub fn st_min(a: SystemTime, b: SystemTime) -> (r: SystemTime) ensures r == st_min_s(a, b)
-    { if a.secs < b.secs || (a.secs == b.secs && a.nanos <= b.nanos) { a } else { b } }
+    pub open spec fn st_cmp(a: SystemTime, b: SystemTime) -> Ordering {
+        if a.secs < b.secs || (a.secs == b.secs && a.nanos < b.nanos) { Ordering::Less } else if a.secs == b.secs && a.nanos == b.nanos { Ordering::Equal } else { Ordering::Greater }
+    }
+    /// SystemTime is totally ordered by (secs, nanos): `*m > d`, `*m <= d`, `std::cmp::min(m, d)` keep their std meaning.
+    impl PartialEqSpecImpl for SystemTime {
+        open spec fn obeys_eq_spec() -> bool { true }
+        open spec fn eq_spec(&self, o: &SystemTime) -> bool { self.secs == o.secs && self.nanos == o.nanos }
+    }
+    impl PartialEq for SystemTime { fn eq(&self, o: &SystemTime) -> (r: bool) { self.secs == o.secs && self.nanos == o.nanos } }
+    impl Eq for SystemTime {}
+    impl PartialOrdSpecImpl for SystemTime {
+        open spec fn obeys_partial_cmp_spec() -> bool { true }
+        open spec fn partial_cmp_spec(&self, o: &SystemTime) -> Option<Ordering> { Some(st_cmp(*self, *o)) }
+    }
+    impl PartialOrd for SystemTime {
+        fn partial_cmp(&self, o: &SystemTime) -> (r: Option<Ordering>) {
+            if self.secs < o.secs || (self.secs == o.secs && self.nanos < o.nanos) { Some(Ordering::Less) } else if self.secs == o.secs && self.nanos == o.nanos { Some(Ordering::Equal) } else { Some(Ordering::Greater) }
+        }
+    }
+    impl OrdSpecImpl for SystemTime {
+        open spec fn obeys_cmp_spec() -> bool { true }
+        open spec fn cmp_spec(&self, o: &SystemTime) -> Ordering { st_cmp(*self, *o) }
+    }
+    impl Ord for SystemTime {
+        fn cmp(&self, o: &SystemTime) -> (r: Ordering) {
+            if self.secs < o.secs || (self.secs == o.secs && self.nanos < o.nanos) { Ordering::Less } else if self.secs == o.secs && self.nanos == o.nanos { Ordering::Equal } else { Ordering::Greater }
+        }
+    }
+    /// std::cmp::min (assumed std contract).
+    pub assume_specification<T: Ord>[ std::cmp::min::<T> ](a: T, b: T) -> (r: T)
+        ensures T::obeys_cmp_spec() ==> r == (if a.cmp_spec(&b) == Ordering::Greater { b } else { a });
     /// httpdate: `fmt_http_date(t)` renders t truncated to the second; `parse_http_date` yields whole seconds.
     pub struct HDate { pub t: Ghost<SystemTime> }
     #[verifier::external_body]
